@@ -249,7 +249,7 @@ func concurrent(run *ev.Run) {
 			names = append(names, strings.Join(n, ";"))
 		}
 		desc := "concurrent: " + sc.name + ": " + strings.Join(names, " || ")
-		st := vsched.Explore(vsched.Config{Name: sc.name, Bound: bound, Stall: 120 * time.Second, MaxExec: 200000}, concBody(sc))
+		st := vsched.Explore(vsched.Config{Name: sc.name, Bound: bound, Stall: 120 * time.Second, MaxExec: 200000, Deadline: run.DeadlineIn(time.Duration(run.Pick(60, 240)) * time.Second)}, concBody(sc))
 		if st.Infra != "" {
 			if st.StallReproduced {
 				run.Violation("call-never-returns-under-schedule", fmt.Sprintf("%s: the same schedule stalled three times: %s", sc.name, st.Infra), map[string]interface{}{"scenario": sc.name, "schedule": st.StallSchedule})
